@@ -1067,8 +1067,8 @@ func (c *checker) runCasesFiltered(jobs []*job, budget time.Duration, accept fun
 }
 
 // singleFaults: every (selected) label of the failure-free history × mode.
-func (c *checker) singleFaults(progs []prog, masks func(p prog, kind string) []int, allLabels func(kind string, mask int) bool, keep func(*job) bool, budget time.Duration) map[*job]*result {
-	c.phase = "single-faults"
+func (c *checker) singleFaults(phase string, progs []prog, masks func(p prog, kind string) []int, allLabels func(kind string, mask int) bool, want, keep func(*job) bool, budget time.Duration) map[*job]*result {
+	c.phase = phase
 	var jobs []*job
 	for _, p := range progs {
 		for _, k := range executors {
@@ -1076,7 +1076,9 @@ func (c *checker) singleFaults(progs []prog, masks func(p prog, kind string) []i
 				files := c.filesFor(p, mask)
 				for _, l := range selectLabels(c.logs[logKey(p, k, files)], allLabels(k, mask)) {
 					for _, m := range modesFor(l) {
-						jobs = append(jobs, c.newJob(p, k, files, []fault{{Label: l, Mode: m}}))
+						if j := c.newJob(p, k, files, []fault{{Label: l, Mode: m}}); want(j) {
+							jobs = append(jobs, j)
+						}
 					}
 				}
 			}
@@ -1238,9 +1240,11 @@ func (c *checker) run() {
 	c.reference(progs)
 	c.subsetsPhase(progs)
 
-	budget := 4 * time.Minute
+	// Soft budgets. On an idle 16-core machine quick takes well under a minute and
+	// thorough a few minutes; the budgets leave room for a heavily loaded machine.
+	budget := 10 * time.Minute
 	if thorough {
-		budget = 9 * time.Minute
+		budget = 12 * time.Minute
 	}
 	// Fault cases. quick: pre-existing files {none, all} (CachePartial also: all but
 	//           shard 0); selected labels (see selectLabels); local executor: every
@@ -1313,13 +1317,16 @@ func (c *checker) run() {
 		}
 		return nil
 	}, budget)
-	singles := c.singleFaults(progs, masks, allLabels, pairCase, budget)
+	// The cases the pairs start from come first, then the pairs, then all other single
+	// faults (so that a time budget cuts the bulk, not the deviation-2 part).
+	singles := c.singleFaults("single-faults(pair programs)", progs, masks, allLabels, pairCase, pairCase, budget)
 	c.pairs(singles, func(l string) []vfs.Mode {
 		if thorough {
 			return modesFor(l)
 		}
 		return []vfs.Mode{vfs.Fail, vfs.Crash} // quick: no partial write as the second fault
 	}, budget)
+	c.singleFaults("single-faults", progs, masks, allLabels, func(j *job) bool { return !pairCase(j) }, nil, budget)
 	c.confirm()
 
 	var names []string
